@@ -2,6 +2,8 @@ package main
 
 import (
 	"fmt"
+	"path/filepath"
+	"runtime"
 	"strconv"
 	"strings"
 	"sync"
@@ -80,6 +82,7 @@ type caseStats struct {
 	decidedNodes                        int
 	blockPrecommit                      bool
 	disagree                            bool
+	panics                              []string
 }
 
 type pcRec struct {
@@ -109,7 +112,7 @@ func judgeCase(c core.Case, out []string) ([]core.Finding, caseStats) {
 		op   int
 	}
 	var decs []dec
-	signed := map[string]string{}   // "node/kind/round" -> value
+	signed := map[string]string{}  // "node/kind/round" -> value
 	lastVoteRound := map[int]int{} // node -> largest round voted in
 	precommits := map[int][]pcRec{}
 	lockSeen := map[int]string{}
@@ -281,6 +284,8 @@ func judgeCase(c core.Case, out []string) ([]core.Finding, caseStats) {
 						}
 					}
 				}
+			case "panic":
+				st.panics = append(st.panics, strings.Join(args, ","))
 			case "decide":
 				if len(args) != 2 {
 					continue
@@ -322,10 +327,11 @@ func judgeCase(c core.Case, out []string) ([]core.Finding, caseStats) {
 }
 
 var (
-	statMtx sync.Mutex
-	stats   = map[string]int{}
-	maxRnd  = map[string]int{}
-	seenCase = map[string]bool{}
+	statMtx    sync.Mutex
+	stats      = map[string]int{}
+	maxRnd     = map[string]int{}
+	seenCase   = map[string]bool{}
+	panicStats = map[string]int{}
 )
 
 func oracle(c core.Case, out []string) []core.Finding {
@@ -336,6 +342,11 @@ func oracle(c core.Case, out []string) []core.Finding {
 	if !seenCase[key] { // the runner re-evaluates shrunk candidates under the same id; count every case once
 		seenCase[key] = true
 		stats["decisions"] += st.decisions
+		stats["decisions."+c.Kind] += st.decisions
+		for _, p := range st.panics {
+			panicStats[p]++
+		}
+		stats["lock_events."+c.Kind] += st.locks
 		stats["refused_ops"] += st.refused
 		stats["lock_events"] += st.locks
 		if st.decidedNodes >= 1 {
@@ -379,9 +390,22 @@ func extra() map[string]interface{} {
 			dropped = append(dropped, powersKey(p))
 		}
 	}
-	m := map[string]interface{}{"max_round_reached": maxRnd, "power_sets_dropped_path_dependent": dropped, "generator_events": genStats}
+	m := map[string]interface{}{"max_round_reached": maxRnd, "power_sets_dropped_path_dependent": dropped, "generator_events": genStats, "node_panics_by_class": panicStats, "goroutines_at_end": runtime.NumGoroutine(), "leftover_temp_dirs": leftoverDirs()}
+	for _, c := range []string{"sched", "happy", "lock-partition", "unsafe", "corpus"} {
+		m["decisions."+c] = stats["decisions."+c]
+		m["lock_events."+c] = stats["lock_events."+c]
+	}
 	for _, k := range []string{"decisions", "refused_ops", "lock_events", "cases_with_a_decision", "cases_with_2+_deciding_nodes", "unsafe_disagreements_observed_unjudged"} {
 		m[k] = stats[k]
 	}
 	return m
+}
+
+func leftoverDirs() int {
+	root := tmpRoot()
+	if root == "" {
+		root = "/tmp"
+	}
+	m, _ := filepath.Glob(filepath.Join(root, "verif-c01-*"))
+	return len(m)
 }
